@@ -679,6 +679,7 @@ func (c *Client) Do(ctx context.Context, q Query) (err error) {
 	done := make(chan struct{})
 	var (
 		gotException atomic.Bool
+		recvFailed   atomic.Bool
 		colInfo      chan proto.ColInfoInput
 	)
 	if q.Result == nil && len(q.Input) > 0 {
@@ -731,9 +732,16 @@ func (c *Client) Do(ctx context.Context, q Query) (err error) {
 		}
 		return nil
 	})
-	g.Go(func() error {
+	g.Go(func() (rerr error) {
 		// Receiving query result, data and telemetry.
 		defer close(done)
+		defer func() {
+			// Group context is canceled only after return, so cancellation
+			// handler can't rely on it to detect receive failure.
+			if rerr != nil {
+				recvFailed.Store(true)
+			}
+		}()
 		if colInfo != nil {
 			defer close(colInfo)
 		}
@@ -777,7 +785,7 @@ func (c *Client) Do(ctx context.Context, q Query) (err error) {
 		<-done
 		verifPoint("cancel:after-done")
 		// Handling query cancellation if needed.
-		if ctx.Err() != nil && !gotException.Load() {
+		if (ctx.Err() != nil || recvFailed.Load()) && !gotException.Load() {
 			verifPoint("cancel:before-cancel")
 			err := multierr.Append(ctx.Err(), c.cancelQuery())
 			return errors.Wrap(err, "canceled")
